@@ -5,6 +5,8 @@ byte-level specification (`Pithos.Spec.ObjectChecksums`). Core Lean only.
 import Pithos.Spec.ObjectChecksums
 import Pithos.Lemmas.Checksum
 
+
+set_option linter.unusedSimpArgs false  -- `cases … <;> simp […]`: an argument is used in some branches only
 namespace Pithos.ObjSums
 open Pithos.Checksum
 
